@@ -175,8 +175,9 @@ def compare_semiring(got, ref, ref_abs, semiring: str, tol="exact"):
         with np.errstate(divide="ignore", invalid="ignore"):
             slack = t["abs"] + t["rel"] * np.where(pos, np.abs(ref_abs) / np.where(pos, ref, 1.0), 0.0)
             # a subnormal reference value carries few significant bits (spacing 4.94e-324): its
-            # own relative rounding error bounds what the log-space comparison can resolve
-            slack = slack + np.where(pos & (ref < 1e-300), 2.0 * 4.95e-324 / np.where(pos, ref, 1.0), 0.0)
+            # own relative rounding error (and that of the subnormal intermediate products it was computed
+            # from: 64 spacings) bounds what the log-space comparison can resolve
+            slack = slack + np.where(pos & (ref < 1e-300), 64.0 * 4.95e-324 / np.where(pos, ref, 1.0), 0.0)
         err = np.abs(np.where(pos, got - lref, 0.0))
         bad = pos & ~(err <= slack)
         zero_bad = (~pos) & ~(np.isneginf(got) | (got < -650.0))
